@@ -278,22 +278,40 @@ func runReqCoupd(c *core.Ctx) {
 		c.Check(len(miss) == 0 && okVals, nil, fname(c, set), "set(4 maps)", P.Pos(set.Pos()), "a REQ (re)initialises all four per-subscription maps together: fresh EOSE flags, no last event, empty seen-set, a matcher from the REQ's filters",
 			fmt.Sprintf("a REQ does not reset all four per-subscription maps together (missing: %v, fresh values: %v): state of a previous use of the id leaks into the new subscription", miss, okVals))
 	}
+	// deletes of the subscription's entry, performed by fn itself or by a method of the
+	// state it calls (read in fn's terms), at places satisfying within
 	delKeys := func(fn *ssa.Function, within func(*ssa.BasicBlock) bool) map[string]*ssa.Call {
 		got := map[string]*ssa.Call{}
 		key := "p:" + fn.Params[1].Name()
 		an.Instrs(fn, func(in ssa.Instruction) {
 			call, ok := in.(*ssa.Call)
-			if !ok {
+			if !ok || !within(call.Block()) {
 				return
 			}
-			b, ok := call.Call.Value.(*ssa.Builtin)
-			if !ok || b.Name() != "delete" || an.PathOf(call.Call.Args[1]) != key || !within(call.Block()) {
-				return
-			}
-			for _, m := range maps {
-				if an.PathOf(call.Call.Args[0]) == "recv."+m {
-					got[m] = call
+			record := func(mp, kp string, at *ssa.Call) {
+				if kp != key {
+					return
 				}
+				for _, m := range maps {
+					if mp == "recv."+m {
+						got[m] = at
+					}
+				}
+			}
+			if b, ok := call.Call.Value.(*ssa.Builtin); ok {
+				if b.Name() == "delete" {
+					record(an.PathOf(call.Call.Args[0]), an.PathOf(call.Call.Args[1]), call)
+				}
+				return
+			}
+			if g := an.StaticCallee(&call.Call); g != nil && P.InModule(g) && g != fn && len(g.Params) == len(call.Call.Args) {
+				an.Instrs(g, func(gin ssa.Instruction) {
+					if gc, ok := gin.(*ssa.Call); ok {
+						if b, ok := gc.Call.Value.(*ssa.Builtin); ok && b.Name() == "delete" {
+							record(an.PathOfIn(gc.Call.Args[0], &call.Call), an.PathOfIn(gc.Call.Args[1], &call.Call), call)
+						}
+					}
+				})
 			}
 		})
 		return got
@@ -332,32 +350,31 @@ func runMergeGuards(c *core.Ctx) {
 		}
 	}
 	sub := msg + ".SubscriptionID"
-	// true returns: pass-through (guarded by all-done true) or the guarded one
-	var guarded []*ssa.BasicBlock
-	for _, rb := range an.ReturnBlocks(fn) {
-		r := an.LastInstr(rb).(*ssa.Return)
-		if !isConstBool(r.Results[0], true) {
-			if !isConstBool(r.Results[0], false) {
-				c.Unknown(nil, fname(c, fn), "returns", P.Pos(r.Pos()), "non-constant verdict")
-			}
-			continue
-		}
-		pass := false
-		for _, g := range an.Guards(fn, rb) {
-			if call, ok := g.V.(*ssa.Call); ok && g.True && strings.HasSuffix(an.CalleeName(&call.Call), "ReqState).AllEOSE") {
-				pass = true
-			}
-		}
-		if !pass {
-			guarded = append(guarded, rb)
-		}
-	}
-	if len(guarded) != 1 {
-		c.Bad(nil, fname(c, fn), "returns", P.Pos(fn.Pos()), fmt.Sprintf("%d forwarding returns besides the post-EOSE pass-through, want exactly 1", len(guarded)))
+	// the paths on which the verdict may be true: the post-EOSE pass-through (all-done
+	// answered true) and the forwarding paths; what every forwarding path has tested is
+	// what guards forwarding — however the function spells its returns
+	truePaths, okp := an.ResultPaths(fn, 0, true)
+	if !okp {
+		c.Unknown(nil, fname(c, fn), "returns", P.Pos(fn.Pos()), "too many paths")
 		return
 	}
-	T := guarded[0]
-	gs := an.Guards(fn, T)
+	c.CountPaths(len(truePaths))
+	isCallTo := func(v ssa.Value, suffix string) *ssa.Call {
+		if call, ok := v.(*ssa.Call); ok && strings.HasSuffix(an.CalleeName(&call.Call), suffix) {
+			return call
+		}
+		return nil
+	}
+	var fwd []an.CondPath
+	for _, tp := range truePaths {
+		if !tp.Has(func(g an.Cond) bool { return g.True && isCallTo(g.V, "ReqState).AllEOSE") != nil }) {
+			fwd = append(fwd, tp)
+		}
+	}
+	if len(fwd) == 0 {
+		c.Bad(nil, fname(c, fn), "returns", P.Pos(fn.Pos()), "no forwarding path besides the post-EOSE pass-through")
+		return
+	}
 	// (a) order guard
 	{
 		var cmpCall *ssa.Call
@@ -373,54 +390,36 @@ func runMergeGuards(c *core.Ctx) {
 			last := "recv.lastEvent[" + sub + "].Event.CreatedAt"
 			cur := msg + ".Event.CreatedAt"
 			fr := an.Frame{IsSubject: func(v ssa.Value) bool { return v == ssa.Value(cmpCall) }, Term: func(v ssa.Value) (int64, bool) { return an.ConstInt(v) }}
-			rej := an.Empty()
-			for _, rb := range an.ReturnBlocks(fn) {
-				if !isConstBool(an.LastInstr(rb).(*ssa.Return).Results[0], false) {
+			// forwarded under which comparison results
+			fwdSet := an.Empty()
+			skipOK := true
+			for _, p := range fwd {
+				if p.Path.Contains(cmpCall.Block()) {
+					fwdSet = fwdSet.Union(p.Meaning(fr))
 					continue
 				}
-				for _, g := range an.Guards(fn, rb) {
-					if s, ok := fr.Atom(g.V, g.True); ok {
-						rej = rej.Union(s)
-					}
+				// the comparison is skipped only when there is no last event
+				if !p.Has(func(g an.Cond) bool {
+					is, nn := nilTest(g.V, "recv.lastEvent["+sub+"]")
+					return is && g.True != nn
+				}) {
+					skipOK = false
 				}
 			}
 			// Compare(last, cur) < 0 ⇔ cur newer than last ⇒ must be refused
 			switch {
 			case a == last && b == cur:
-				good = rej.Equal(an.Range(an.NegInf, -1))
-				detail = "refused iff cmp.Compare(last, new) ∈ " + rej.String()
+				good = fwdSet.Equal(an.Range(0, an.PosInf))
+				detail = "forwarded iff cmp.Compare(last, new) ∈ " + fwdSet.String()
 			case a == cur && b == last:
-				good = rej.Equal(an.Range(1, an.PosInf))
-				detail = "refused iff cmp.Compare(new, last) ∈ " + rej.String()
+				good = fwdSet.Equal(an.Range(an.NegInf, 0))
+				detail = "forwarded iff cmp.Compare(new, last) ∈ " + fwdSet.String()
 			default:
 				detail = "compares " + a + " with " + b
 			}
-			// and the passing edge dominates the forwarding return
-			if good {
-				dom := false
-				for _, g := range gs {
-					if _, ok := fr.Atom(g.V, g.True); ok {
-						dom = true
-					}
-				}
-				// the comparison is skipped only when there is no last event
-				if !dom {
-					for _, p := range mustPaths(fn, T) {
-						has, nilLast := false, false
-						for _, cd := range p.Conds() {
-							if _, ok := fr.Atom(cd.V, cd.True); ok {
-								has = true
-							}
-							if is, nn := nilTest(cd.V, "recv.lastEvent["+sub+"]"); is && cd.True != nn {
-								nilLast = true
-							}
-						}
-						if !has && !nilLast {
-							good = false
-							detail += "; a forwarding path skips the comparison although a last event exists"
-						}
-					}
-				}
+			if !skipOK {
+				good = false
+				detail += "; a forwarding path skips the comparison although a last event exists"
 			}
 		}
 		c.Check(good, nil, fname(c, fn), "order-guard", P.Pos(fn.Pos()), "an event newer than the last forwarded one is refused ("+detail+"): the stream is non-increasing in created_at", "the order guard does not refuse exactly the events newer than the last forwarded one: "+detail)
@@ -428,37 +427,45 @@ func runMergeGuards(c *core.Ctx) {
 	// (b) seen-set consulted and updated with the event id
 	{
 		seenKey := "recv.seen[" + sub + "][" + msg + ".Event.ID]"
-		consulted := false
-		for _, g := range gs {
-			if an.PathOf(g.V) == seenKey && !g.True {
-				consulted = true
-			}
-		}
-		updated := false
+		consulted := an.AllHave(fwd, func(g an.Cond) bool { return an.PathOf(g.V) == seenKey && !g.True })
+		var upd []*ssa.BasicBlock
 		an.Instrs(fn, func(in ssa.Instruction) {
 			if mu, ok := in.(*ssa.MapUpdate); ok && an.PathOf(mu.Map) == "recv.seen["+sub+"]" && an.PathOf(mu.Key) == msg+".Event.ID" && isConstBool(mu.Value, true) {
-				if mu.Block() == T || mu.Block().Dominates(T) {
-					updated = true
-				}
+				upd = append(upd, mu.Block())
 			}
 		})
+		updated := len(upd) > 0
+		for _, p := range fwd {
+			on := false
+			for _, b := range upd {
+				if p.Path.Contains(b) {
+					on = true
+				}
+			}
+			if !on {
+				updated = false
+			}
+		}
 		c.Check(consulted && updated, nil, fname(c, fn), "seen-set", P.Pos(fn.Pos()), "forwarded only if the id was not seen at this timestamp, and then recorded", fmt.Sprintf("duplicate suppression incomplete (seen-set consulted: %v, updated on the forwarding path: %v): the same event from two children is forwarded twice", consulted, updated))
 	}
 	// (c) Done consulted, LimitMatch decides
 	{
 		matcher := "recv.matcher[" + sub + "]"
-		done, lm, plain := false, false, false
-		for _, g := range gs {
+		onMatcher := func(g an.Cond, method string) *ssa.Call {
 			call, ok := g.V.(*ssa.Call)
-			if !ok || !call.Call.IsInvoke() || an.PathOf(call.Call.Value) != matcher {
-				continue
+			if !ok || !call.Call.IsInvoke() || an.PathOf(call.Call.Value) != matcher || call.Call.Method.Name() != method {
+				return nil
 			}
-			switch call.Call.Method.Name() {
-			case "Done":
-				done = !g.True
-			case "LimitMatch":
-				lm = g.True && an.PathOf(call.Call.Args[0]) == msg+".Event"
-			case "Match":
+			return call
+		}
+		done := an.AllHave(fwd, func(g an.Cond) bool { return onMatcher(g, "Done") != nil && !g.True })
+		lm := an.AllHave(fwd, func(g an.Cond) bool {
+			call := onMatcher(g, "LimitMatch")
+			return call != nil && g.True && an.PathOf(call.Call.Args[0]) == msg+".Event"
+		})
+		plain := false
+		for _, p := range fwd {
+			if p.Has(func(g an.Cond) bool { return onMatcher(g, "Match") != nil }) {
 				plain = true
 			}
 		}
@@ -467,12 +474,10 @@ func runMergeGuards(c *core.Ctx) {
 	}
 	// (d) a child that already sent EOSE is not merged
 	{
-		okIs := false
-		for _, g := range gs {
-			if call, ok := g.V.(*ssa.Call); ok && !g.True && strings.HasSuffix(an.CalleeName(&call.Call), "ReqState).IsEOSE") && an.PathOf(call.Call.Args[1]) == sub {
-				okIs = true
-			}
-		}
+		okIs := an.AllHave(fwd, func(g an.Cond) bool {
+			call := isCallTo(g.V, "ReqState).IsEOSE")
+			return call != nil && !g.True && an.PathOf(call.Call.Args[1]) == sub
+		})
 		c.Check(okIs, nil, fname(c, fn), "child-not-done", P.Pos(fn.Pos()), "stored events of a child that already sent its EOSE are not merged", "events of a child that already sent EOSE are merged before the overall EOSE")
 	}
 }
@@ -525,8 +530,17 @@ func runEoseGate(c *core.Ctx) {
 		if storesTrue {
 			mark = f
 		}
-		if f.Signature.Results().Len() == 1 && len(f.Params) == 2 && strings.Contains(calleeReturnPath(f), "recv.eose[") {
-			allDone = f
+		// all-done: a verdict about one subscription computed from its flags
+		if f.Signature.Results().Len() == 1 && len(f.Params) == 2 {
+			readsFlags := false
+			an.Instrs(f, func(in ssa.Instruction) {
+				if lk, ok := in.(*ssa.Lookup); ok && an.PathOf(lk.X) == "recv.eose" && an.PathOf(lk.Index) == "p:"+f.Params[1].Name() {
+					readsFlags = true
+				}
+			})
+			if readsFlags {
+				allDone = f
+			}
 		}
 	}
 	if mark == nil || allDone == nil {
@@ -872,7 +886,7 @@ func runOkAgg(c *core.Ctx) {
 		wrote := false
 		for _, ci := range calls(join) {
 			if call, ok := ci.(*ssa.Call); ok && strings.HasSuffix(an.CalleeName(&call.Call), "strings.Builder).WriteString") && an.InLoop(call.Block()) {
-				if strings.Contains(an.PathOf(call.Call.Args[1]), "ServerOKMsg).Message("+mp+"[*])") {
+				if ap := an.PathOf(call.Call.Args[1]); strings.Contains(ap, "ServerOKMsg).Message("+mp+"[*])") || ap == "("+mp+"[*].MsgPrefix + "+mp+"[*].Msg)" {
 					wrote = true
 				}
 			}
